@@ -255,10 +255,30 @@ def _entries():
     E['Background2D'] = lambda X: Background2D(
         X.d, (11, 13), mask=X.m, coverage_mask=X.cov, filter_size=3,
         exclude_percentile=30.0)
+    E['Background2D_fullwidth'] = lambda X: Background2D(
+        X.d, (8, X.shape[1]), mask=X.m, filter_size=1, exclude_percentile=60.0)
+    E['Background2D_thin_boxes'] = lambda X: Background2D(
+        X.d, (1, 9), mask=X.m, filter_size=1, exclude_percentile=60.0)
     E['LocalBackground'] = lambda X: LocalBackground(5, 9)(
         np.asarray(getattr(X.d, 'value', X.d)), X.xy[0], X.xy[1], mask=X.m)
     E['background_estimators'] = lambda X: (
         MedianBackground()(X.d), StdBackgroundRMS()(X.d))
+    def _noclip(X):
+        from photutils.background import (BiweightLocationBackground,
+                                          BiweightScaleBackgroundRMS,
+                                          MADStdBackgroundRMS, MeanBackground,
+                                          MMMBackground,
+                                          ModeEstimatorBackground,
+                                          SExtractorBackground)
+        out = []
+        for cls in (MedianBackground, MeanBackground, ModeEstimatorBackground,
+                    MMMBackground, SExtractorBackground,
+                    BiweightLocationBackground, StdBackgroundRMS,
+                    MADStdBackgroundRMS, BiweightScaleBackgroundRMS):
+            out.append(cls(sigma_clip=None)(X.d))
+            out.append(cls(sigma_clip=None)(X.d, axis=1))
+        return out
+    E['background_estimators_noclip'] = _noclip
     E['detect_threshold'] = lambda X: detect_threshold(
         X.d, 2.0, mask=X.m)
     E['detect_threshold_given'] = lambda X: detect_threshold(
